@@ -28,6 +28,10 @@ IDENT_POOL = ['name', 'age', 'x', 'X', 'x1', 'x10', 'name2', 'Name', 'NAME', '_i
 RESERVED_DIRECT = {'NR', 'NF', 'NU', 'a', 'b', 'e', 'record_a', 'record_b', 'query_context', 'stop_flag', 'star_fields', 'out_fields', 'sort_key', 'key', 'udf', 'like', 'unnest', 'count', 'sum', 'min', 'max', 'avg', 'median', 'variance', 'array_agg', 'any_value', 'up_fields', 'join_matches', 'join_match', 'bNR', 'bNF', 'aNR', 'select_simple', 'select_unnested', 'safe_get', 'len', 'str', 'int', 'x'} | qast.PY_KEYWORDS
 
 
+DIRECT_WORD_NAMES = ['package', 'public', 'private', 'protected', 'static', 'interface', 'implements', 'long', 'short', 'final', 'native', 'abstract', 'int', 'char', 'byte', 'boolean', 'double',
+                     'float', 'goto', 'volatile', 'transient', 'synchronized', 'throws', 'value', 'city']
+
+
 def random_name(rng, allow_newline=False, allow_cr=False):
     r = rng.random()
     if r < 0.3:
@@ -207,6 +211,20 @@ def _leg_lists(ns, res, spec, rng, node, js_batch):
                                 qs, names, bn2, rs['rows'], exp2), {'leg': 'direct-shared', 'names': names, 'b_names': bn2, 'col': col, 'query_text': qs})
                         if node is not None:
                             js_batch.append((names, col, 'direct-shared', {'query': qs.replace(' and ', ' && '), 'input': [list(x) for x in A], 'join': [list(x) for x in B2], 'input_cols': list(names), 'join_cols': list(bn2), 'normalize': False, '_expected': exp2}))
+        # direct mode, columns named by words that look reserved but are ordinary identifiers in the code the engines generate (Java-style type and modifier
+        # names, old "future reserved" words): the bare name denotes the column, in both ports
+        if n % 5 == 2:
+            wnames = rng.sample(DIRECT_WORD_NAMES, rng.randrange(2, 5))
+            WA = unique_table(len(wnames))
+            for col, nm in enumerate(wnames):
+                qtext = 'select %s, NR' % nm
+                r = boundary.run_query_table(ns, qtext, [list(x) for x in WA], None, list(wnames), None, False)
+                res.evaluations += 1
+                res.count('direct_mode_word_name_lookups')
+                res.nontrivial('direct-words', repr(wnames), col)
+                check_rows(res, 'query_table(%r, header %r, normalize_column_names=False)' % (qtext, wnames), {'leg': 'direct', 'names': wnames, 'col': col, 'query_text': qtext}, r['rows'], r['error'] and '%s: %s' % (r['error'], r['error_msg']), expected(col), 'direct-word-name')
+                if node is not None:
+                    js_batch.append((wnames, col, 'direct-word', {'query': qtext, 'input': [list(x) for x in WA], 'join': None, 'input_cols': list(wnames), 'join_cols': None, 'normalize': False}))
         # direct mode, columns NAMED like positional variables of their own table (a3 as the name of the first column, b2 as the name of the join
         # table's third): the header decides - the bare name denotes the column carrying it, not the column at that number
         if n % 4 == 1:
@@ -524,7 +542,7 @@ def run_shard(spec, res):
 def summarize(tier, seed, m):
     return {
         'rule': 'random headers of 1-5 distinct names over printable ASCII incl. both quotes, backslash, backtick, brackets, #, =, %%, spaces, tab, newline, non-ASCII (and prefix / suffix / case variants of each other; names containing an a.ident / b.ident token excluded as quantified) over tables whose cell (r, c) is the unique token r{r}c{c}; for every column and every spelling (a["..."], a[\'...\'], a.name when identifier-safe, bare name in direct mode - also for columns named like positional variables of their own table, a3 as the name of the first column -) the query `select <var>, NR` must return exactly that column and NR = 1.. ; sources: list column names, pandas columns, sqlite columns, CSV header line (query_csv); WITH (header | noheader | headers | noheaders) x caller flag x {input, input + join} on CSV incl. the command line. dataframes whose index carries a name, or is a named two- / three-level MultiIndex, in half of the pandas cases; distinct_nontrivial = distinct (source, header, column, spelling) lookups.',
-        'required': ['direct_mode_shared_name_runs', 'direct_mode_shared_name_refusals', 'js_direct_mode_shared_name_runs', 'with_modifier_from_clause_runs', 'js_lookups', 'js_lookups:bt', 'named_target:update', 'named_target:except', 'named_target:joinkey', 'list_lookups', 'list_lookups:dq', 'list_lookups:sq', 'list_lookups:attr', 'direct_mode_lookups', 'direct_mode_positional_name_lookups', 'pandas_lookups', 'pandas_integer_label_frames', 'pandas_named_index_frames', 'pandas_named_multiindex_frames', 'sqlite_lookups', 'sqlite_tables:generated', 'sqlite_tables:view', 'csv_lookups', 'with_modifier_runs', 'with_modifier_named_join_runs', 'header_never_data_checks', 'cli_with_modifier_runs'],
+        'required': ['direct_mode_word_name_lookups', 'js_lookups:direct-word', 'direct_mode_shared_name_runs', 'direct_mode_shared_name_refusals', 'js_direct_mode_shared_name_runs', 'with_modifier_from_clause_runs', 'js_lookups', 'js_lookups:bt', 'named_target:update', 'named_target:except', 'named_target:joinkey', 'list_lookups', 'list_lookups:dq', 'list_lookups:sq', 'list_lookups:attr', 'direct_mode_lookups', 'direct_mode_positional_name_lookups', 'pandas_lookups', 'pandas_integer_label_frames', 'pandas_named_index_frames', 'pandas_named_multiindex_frames', 'sqlite_lookups', 'sqlite_tables:generated', 'sqlite_tables:view', 'csv_lookups', 'with_modifier_runs', 'with_modifier_named_join_runs', 'header_never_data_checks', 'cli_with_modifier_runs'],
         'assumptions': ['a.name only for names that are not Python / JS keywords and do not collide with members of the record object; direct mode only for names that do not shadow the engine\'s own locals (documented limitations)'],
     }
 
